@@ -17,7 +17,7 @@ from pathlib import Path
 from . import bind_page as bp
 from . import zenv
 
-BASE = dt.date(2024, 5, 10)
+BASE = dt.date(2024, 12, 29)      # day 1; the six days of a history cross the month and the year
 PAGE_FILE = {1: "a.zo", 2: "sub/b.zo", 3: "c.zo", 4: "sub/d.zo", 5: "e.zo", 6: "f.zo"}
 FILE_PAGE = {v: k for k, v in PAGE_FILE.items()}
 # fixed decorations so that the real-level agreement check also sees inherited metadata and sections
